@@ -206,3 +206,141 @@ Proof.
   intros V V' O O' E E'. unfold sighash4_tree in *. rewrite V in E. rewrite V' in E'. cbn in E, E'.
   injection E as <-. injection E' as <-. split; [apply tree_of_view4_inj; auto | congruence].
 Qed.
+
+(** * views of well-formed transactions are well-formed *)
+Definition wf_input4 (i : sinput4) : Prop :=
+  match i with Transp4 ht _ v code => u32 ht /\ u63 v /\ short code | Shielded4 => True end.
+
+Lemma oall_nonempty {A} (P : A -> Prop) l : Forall P l -> oall P (nonempty l).
+Proof. destruct l; cbn; auto. Qed.
+Lemma Forall_map' {A B} (f : A -> B) (P : A -> Prop) (Q : B -> Prop) l :
+  (forall x, P x -> Q (f x)) -> Forall P l -> Forall Q (map f l).
+Proof. intros H. induction 1; cbn; constructor; auto. Qed.
+Lemma wf_in_outpoint x : wf_in_p x -> wf_outpoint (ti_hash x, ti_n x).
+Proof. unfold wf_in_p, wf_in, wf_outpoint. intros H. bsplit. lens. cbn. auto with wf. Qed.
+Lemma wf_in_seq x : wf_in_p x -> u32 (ti_seq x).
+Proof. unfold wf_in_p, wf_in. intros H. bsplit. auto with wf. Qed.
+Lemma wf_spend_nosig s : wf_spend_p s -> wf_spend4 (nosig s).
+Proof. unfold wf_spend_p, wf_spend, wf_spend4, nosig. intros H. bsplit. lens. cbn. repeat split; auto. Qed.
+
+Lemma vin4_wf t : wf_opt wf_tb (t4_transp t) = true -> Forall wf_in_p (vin4 t) /\ Forall wf_out_p (vout4 t).
+Proof.
+  unfold vin4, vout4. destruct (t4_transp t) as [b|]; cbn [wf_opt]; intros W; [|split; constructor].
+  apply wf_tb_wf in W. exact W.
+Qed.
+
+Lemma view4_of_ok t i w : wf_tx4 t = true -> wf_input4 i -> view4_of t i = Some w -> view4_ok w.
+Proof.
+  intros W I E. unfold wf_tx4 in W. bsplit.
+  match goal with H : wf_opt wf_tb _ = true |- _ => destruct (vin4_wf _ H) as [FI FO] end.
+  match goal with H : wf_js t = true |- _ => rename H into WJ end.
+  match goal with H : match t4_sap t with _ => _ end = true |- _ => rename H into WS end.
+  unfold view4_of in E.
+  set (inp := match i with
+              | Shielded4 => Some None
+              | Transp4 _ idx value code =>
+                  match t4_transp t with
+                  | Some b => match nth_error (tb_vin b) idx with
+                              | Some ti => Some (Some (ti_hash ti, ti_n ti, ti_seq ti, code, value))
+                              | None => None
+                              end
+                  | None => None
+                  end
+              end) in E.
+  destruct inp as [x|] eqn:EI; [|discriminate]. injection E as <-.
+  assert (WI : match x with Some y => wf_in4 y | None => True end).
+  { subst inp. destruct i as [|ht idx v code]; [injection EI as <-; exact Logic.I|].
+    destruct (t4_transp t) as [b|] eqn:TB; [|discriminate].
+    destruct (nth_error (tb_vin b) idx) as [ti|] eqn:NE; [|discriminate]. injection EI as <-.
+    destruct I as (_ & Iv & Ic). unfold vin4 in FI. rewrite TB in FI.
+    rewrite Forall_forall in FI. pose proof (FI _ (nth_error_In _ _ NE)) as Wti.
+    unfold wf_in_p, wf_in in Wti. bsplit. lens. cbn. repeat split; auto with wf. }
+  assert (UH : u32 (hash_type4 i)).
+  { destruct i; cbn; [unfold u32; reflexivity | apply I]. }
+  assert (SP : oall wf_spend4 (if is_v4 (t4_ver t)
+                 then match t4_sap t with Some b => nonempty (map nosig (sa_spends b)) | None => None end else None)
+               /\ oall wf_sout_p (if is_v4 (t4_ver t)
+                 then match t4_sap t with Some b => nonempty (sa_outputs b) | None => None end else None)
+               /\ i64 (if is_v4 (t4_ver t) then match t4_sap t with Some b => sa_vb b | None => 0%Z end else 0%Z)).
+  { destruct (is_v4 (t4_ver t)); [|repeat split; cbn; auto; unfold i64; lia].
+    destruct (t4_sap t) as [b|]; [|repeat split; cbn; auto; unfold i64; lia].
+    cbn [andb] in WS. unfold wf_sap in WS. bsplit. repeat split.
+    - apply oall_nonempty. eapply Forall_map'; [apply wf_spend_nosig|]. apply forallb_Forall; assumption.
+    - apply oall_nonempty. apply forallb_Forall; assumption.
+    - apply i64b_i64; assumption.
+    - apply i64b_i64; assumption. }
+  destruct SP as (SP1 & SP2 & SP3).
+  unfold view4_ok.
+  cbn [w_ver w_branch w_lock w_expiry w_ht w_prev w_seq w_outs w_js w_spends w_souts w_vb w_in].
+  split; [auto with wf|]. split; [auto with wf|]. split; [auto with wf|]. split; [exact UH|].
+  split. { destruct (flag_acp (hash_type4 i)); cbn; auto. eapply Forall_map'; [apply wf_in_outpoint | exact FI]. }
+  split. { destruct (flag_acp (hash_type4 i) || flag_single (hash_type4 i) || flag_none (hash_type4 i)); cbn; auto.
+           eapply Forall_map'; [apply wf_in_seq | exact FI]. }
+  split. { destruct (negb (flag_single (hash_type4 i)) && negb (flag_none (hash_type4 i))); cbn; auto.
+           destruct (flag_single (hash_type4 i)); cbn; auto. destruct i as [|ht idx v code]; cbn; auto.
+           destruct (nth_error (vout4 t) idx) eqn:NE; cbn; auto. constructor; auto.
+           rewrite Forall_forall in FO. apply FO. eapply nth_error_In; eauto. }
+  split. { unfold wf_js in WJ. destruct (t4_js t) as [|j l] eqn:J; auto. bsplit. lens.
+           split; [discriminate|]. split; auto.
+           match goal with H : forallb _ _ = true |- _ => apply forallb_Forall in H; revert H end.
+           apply Forall_impl. intros a Ha. apply len_is_eq; auto. }
+  split; [exact SP1|]. split; [exact SP2|]. split; [exact SP3|].
+  split. { intros V. rewrite V. auto. }
+  exact WI.
+Qed.
+
+(** * corollaries: what ZIP 143/243 signature hashes commit to *)
+Lemma sighash4_iff_wf t t' i i' d d' : wf_tx4 t = true -> wf_tx4 t' = true -> wf_input4 i -> wf_input4 i' ->
+  sighash4_tree t i = Some d -> sighash4_tree t' i' = Some d' ->
+  (d = d' <-> view4_of t i = view4_of t' i').
+Proof.
+  intros W W' I I' E E'. unfold sighash4_tree in E, E'.
+  destruct (view4_of t i) as [w|] eqn:V; [|discriminate]. destruct (view4_of t' i') as [w'|] eqn:V'; [|discriminate].
+  cbn in E, E'. injection E as <-. injection E' as <-.
+  pose proof (view4_of_ok _ _ _ W I V) as O. pose proof (view4_of_ok _ _ _ W' I' V') as O'.
+  split; [intros H; f_equal; apply tree_of_view4_inj; auto | congruence].
+Qed.
+
+(** equal transparent signature hashes: equal hash type, coin value, script code, outpoint and
+    sequence of the signed input, and header *)
+Lemma sighash4_commits t t' ht ht' idx idx' v v' code code' d :
+  wf_tx4 t = true -> wf_tx4 t' = true -> u32 ht -> u32 ht' -> u63 v -> u63 v' -> short code -> short code' ->
+  sighash4_tree t (Transp4 ht idx v code) = Some d -> sighash4_tree t' (Transp4 ht' idx' v' code') = Some d ->
+  ht = ht' /\ v = v' /\ code = code'
+  /\ option_map in_eff_of (nth_error (vin4 t) idx) = option_map in_eff_of (nth_error (vin4 t') idx')
+  /\ t4_ver t = t4_ver t' /\ t4_branch t = t4_branch t' /\ t4_lock t = t4_lock t' /\ t4_expiry t = t4_expiry t'.
+Proof.
+  intros W W' U U' V V' C C' E E'.
+  assert (Q : view4_of t (Transp4 ht idx v code) = view4_of t' (Transp4 ht' idx' v' code')).
+  { apply (sighash4_iff_wf _ _ _ _ _ _ W W' (conj U (conj V C)) (conj U' (conj V' C')) E E'). reflexivity. }
+  unfold sighash4_tree in E, E'.
+  destruct (view4_of t (Transp4 ht idx v code)) as [w|] eqn:VW; [|discriminate].
+  destruct (view4_of t' (Transp4 ht' idx' v' code')) as [w'|] eqn:VW'; [|discriminate].
+  injection Q as <-. unfold view4_of in VW, VW'. unfold vin4.
+  destruct (t4_transp t) as [b|]; [|discriminate]. destruct (t4_transp t') as [b'|]; [|discriminate].
+  destruct (nth_error (tb_vin b) idx) as [x|]; [|discriminate].
+  destruct (nth_error (tb_vin b') idx') as [x'|]; [|discriminate].
+  injection VW as <-. injection VW' as Q. cbn [hash_type4] in Q.
+  inversion Q. unfold in_eff_of. cbn [option_map]. repeat split; congruence.
+Qed.
+
+(** the exclusions are exactly those of ZIP 143/243 *)
+Lemma view4_exclusions t i w : view4_of t i = Some w ->
+  let ht := hash_type4 i in
+  (w_prev w = None <-> flag_acp ht = true)
+  /\ (w_seq w = None <-> flag_acp ht || flag_single ht || flag_none ht = true)
+  /\ (flag_single ht = false -> flag_none ht = false -> w_outs w = Some (vout4 t))
+  /\ (flag_single ht = false -> flag_none ht = true -> w_outs w = None)
+  /\ (flag_single ht = true -> w_outs w = match i with
+                                          | Transp4 _ idx _ _ => match nth_error (vout4 t) idx with Some o => Some [o] | None => None end
+                                          | Shielded4 => None end).
+Proof.
+  intros E ht. unfold view4_of in E. fold ht in E.
+  destruct (match i with Shielded4 => Some None | Transp4 _ idx value code => _ end) as [x|]; [|discriminate].
+  injection E as <-. cbn [w_prev w_seq w_outs].
+  repeat split; try (destruct (flag_acp ht); split; congruence);
+    try (destruct (flag_acp ht || flag_single ht || flag_none ht); split; congruence).
+  - intros -> ->. reflexivity.
+  - intros -> ->. reflexivity.
+  - intros ->. cbn [negb andb]. reflexivity.
+Qed.
